@@ -145,6 +145,8 @@ def facts(name, otarget, orig_out, got):
         out["lhs_on_rhs_different_section"] = any(wrt(r) != ltxt
                                                   for r in reads)
     if asg is not None:
+        # is the lowered intrinsic the whole right-hand side?
+        out["target_is_whole_rhs"] = asg.rhs is node
         from psyclone.psyir.nodes import Range
         steps = {wrt_step(rng) for rng in asg.walk(Range)}
         out["range_steps"] = sorted(steps)
@@ -175,11 +177,14 @@ CLASSIFIERS = {
     "arrayassign_nonunit_stride":
         lambda c: _is(c, "arrayassign2loops") and
         any(st != "1" for st in c.get("facts", {}).get("range_steps", [])),
-    # c(2,m) = SUM(c(:5,:2)): the accumulator is part of the summed array
+    # c(2,m) = SUM(c(:5,:2)): the reduction is the whole right-hand side and
+    # the LHS element is part of the reduced array (the final copy from the
+    # temporary is never emitted)
     "reduction2loop_lhs_in_argument":
         lambda c: c.get("trans") in REDUCTIONS and
         c.get("bucket", "").endswith(":diff") and
-        bool(c.get("facts", {}).get("lhs_on_rhs")),
+        bool(c.get("facts", {}).get("lhs_on_rhs")) and
+        bool(c.get("facts", {}).get("target_is_whole_rhs")),
 }
 
 
